@@ -4,6 +4,7 @@ Helper lemmas for Properties/C38.lean. Core-only.
 -/
 import SquidModel.Proxyp.V1Line
 import SquidModel.Proxyp.V2
+import SquidModel.Proxyp.Feed
 namespace SquidModel.Proxyp
 open SquidModel.Gen.Proxyp
 
@@ -166,5 +167,34 @@ theorem no_magic (ipOf : IpOf) (buf : Bytes) (h2 : magic2.isPrefixOf buf = false
     parse ipOf buf = if magic2.length ≤ buf.length then .reject .badMagic else .more := by
   rw [parse_eq, h2, h1]
   simp
+
+/-! ### the caller's retry loop -/
+
+/-- however the bytes are cut into reads, the connection ends the PROXY phase with the answer (and the left-over bytes)
+that a single parse of the whole input gives -/
+theorem feed_eq (ipOf : IpOf) (acc : Bytes) (segs : List Bytes) :
+    feed ipOf acc segs = attempt ipOf (acc ++ segs.flatten) := by
+  induction segs generalizing acc with
+  | nil => simp [feed]
+  | cons s r ih =>
+    unfold feed
+    have hst := parse_stable ipOf (acc ++ s) r.flatten
+    cases hp : parse ipOf (acc ++ s) with
+    | more =>
+      simp only
+      rw [ih]
+      simp [List.append_assoc]
+    | ok h n =>
+      have hfull : parse ipOf (acc ++ (s :: r).flatten) = .ok h n := by
+        rw [List.flatten_cons, ← List.append_assoc, hst (by rw [hp]; simp), hp]
+      have hn := (parse_ok_take hp).1
+      simp only [attempt, hfull]
+      rw [List.flatten_cons, ← List.append_assoc, List.drop_append_of_le_length hn]
+    | reject e =>
+      have hfull : parse ipOf (acc ++ (s :: r).flatten) = .reject e := by
+        rw [List.flatten_cons, ← List.append_assoc, hst (by rw [hp]; simp), hp]
+      simp only [attempt, hfull]
+      simp [List.append_assoc]
+    | ub => exact absurd hp (parse_ne_ub ipOf _)
 
 end SquidModel.Proxyp
